@@ -3,6 +3,7 @@ import re
 from check import Property
 from props import nodeutil as nu
 from props import joinutil as ju
+from props import routeutil as ru
 
 VLANS = [None, 0, 1, 0x67, 0xfff]
 
@@ -103,6 +104,29 @@ class C13(Property):
         # "P is the only next hop for S until S moves, stays silent for the timeout, or P disconnects": a NEW peer joining the mesh is
         # none of these - what was learned must survive it
         out += ju.join_cases(rng, 60 if thorough else 12)
+        # "... until a frame with source S arrives from another peer": a host that MOVES is re-learned at once (last writer wins), also
+        # while it keeps talking
+        for _ in range(60 if thorough else 12):
+            mode = rng.choice(["tap-switch", "tap-normal"])
+            s = nu.Scenario()
+            for i in (1, 2, 3):
+                s.node(i, mode=mode, st=st)
+            s.add("C.2.1", "A", "C.3.1", "A")
+            s.tick(3)
+            host = nu.mac(44)
+            vlan = rng.choice(VLANS)
+            first, second = rng.choice([(2, 3), (3, 2)])
+            s.add("P.%d.%s" % (first, nu.eth_frame(b"\xff" * 6, host, vlan)), "A", "O.1", "O.2", "O.3")
+            s.tick(rng.choice([0, 1, st - 2]))
+            s.add("P.1.%s" % nu.eth_frame(host, nu.mac(1), vlan), "A", "O.1", "O.2", "O.3")
+            for _ in range(rng.choice([1, 3])):
+                s.add("P.%d.%s" % (second, nu.eth_frame(rng.choice([b"\xff" * 6, nu.mac(1)]), host, vlan)), "A", "O.1", "O.2", "O.3")
+                s.tick(rng.choice([0, 1]))
+            s.add("P.1.%s" % nu.eth_frame(host, nu.mac(1), vlan), "A", "O.1", "O.2", "O.3")
+            s.add("S.1")
+            out.append(s.line())
+        # a peer whose public address changes while it keeps running (NAT rebinding): learned entries never point at a non-peer
+        out += ru.rebind_cases(rng, 12 if thorough else 3, learning=True)
         # hub and router mode with the IP dissector and claims: packets whose source address lies in ANOTHER node's
         # claim (forwarded or spoofed) must not teach anybody anything - replies still follow the claims
         for _ in range(200 if thorough else 40):
@@ -152,6 +176,8 @@ class C13(Property):
         st = int(nodes[0].split(".")[5])
         if ju.family(line):
             return ju.oracle(line, impl_out)
+        if " %s " % ru.REBIND_MARK in line:
+            return ru.oracle_rebind(line, impl_out)
         if mode.startswith("tun"):
             return self.oracle_claims(ops, outs, n, mode)
         if "M.3.1" in ops:
